@@ -350,7 +350,10 @@ class GeckoSimulator(GeckoCmd):
                 self._STATUS_BLOCK_SEGMENT_SIZE,
                 len(self.structure.status_block) - start,
             )
-            next = (idx + 1) % ((handler.length // self._STATUS_BLOCK_SEGMENT_SIZE) + 1)
+            next = (idx + 1) % (
+                (handler.length + self._STATUS_BLOCK_SEGMENT_SIZE - 1)
+                // self._STATUS_BLOCK_SEGMENT_SIZE
+            )
             if self._should_ignore(handler, sender, False):
                 continue
             self._socket.queue_send(
